@@ -168,9 +168,14 @@ def build(family, p):
                             check(((mem == 'NameAcquired' and ('acquired', pr.uniqueName) in ev)
                                    or (mem == 'NameLost' and ('lost', pr.uniqueName) in ev)),
                                   'NameAcquired / NameLost sent to a client whose relation did not change')
-                # allow-replacement bit recorded for the new relation
-                if want in (R.PRIMARY, R.ALREADY):
-                    check(bool(me.busNames.get(NAME)) == al, 'allow-replacement flag of the owner not recorded')
+                # allow-replacement bit recorded for every client that owns or waits (it decides later requests)
+                for who, allow in table.names.get(NAME, []):
+                    pr = [x for x in peers if x.uniqueName == who][0]
+                    check(NAME in pr.busNames and bool(pr.busNames[NAME]) == bool(allow),
+                          'allow-replacement flag recorded for a client differs from its latest request')
+                for pr in peers:
+                    if pr.uniqueName not in got:
+                        check(NAME not in pr.busNames, 'a client that neither owns nor waits still has the name in its map')
             elif op == 'release':
                 code = b.dbus_ReleaseName(NAME, dbusCaller=me.uniqueName)
                 want, ev = table.release(NAME, me.uniqueName)
@@ -285,6 +290,10 @@ def build(family, p):
                 for u in got:
                     check(u in connected, 'a disconnected client owns or waits for a name')
                 check(sorted(got) == sorted(want) or set(want) <= set(got), 'queue membership differs from the reference')
+                for who, allow in table.names.get(name, []):
+                    pr2 = [x for x in peers if x.uniqueName == who][0]
+                    check(name in pr2.busNames and bool(pr2.busNames[name]) == bool(allow),
+                          'allow-replacement flag recorded for a client differs from its latest request')
                 asker = [x for x in peers if x.uniqueName in connected]
                 if asker:
                     r = call(asker[0], 'GetNameOwner', 's', [name])
